@@ -54,11 +54,14 @@ Definition wf_larr_b (n : nat) (l : larr) : bool :=
 Definition wf_chunk_b (sch : schema) (c : schunk) : bool :=
   schema_eqb sch (sc_schema c) && forallb (fun f => wf_larr_b (sc_len c) (farr f)) (sfields c).
 
-(* what the library's validator really checks: identical offsets windows *)
+(* offsets counted from the first one (what the validator compares, what list_offsets returns) *)
+Definition rebase (o : list nat) : list nat := map (fun x => x - hd 0 o) o.
+
+(* what the library's validator checks: the offsets windows of all fields agree up to their base *)
 Definition same_offsets_b (c : schunk) : bool :=
   match sfields c with
   | [] => true
-  | f0 :: t => forallb (fun f => list_eqb Nat.eqb (offs (farr f0)) (offs (farr f))) t
+  | f0 :: t => forallb (fun f => list_eqb Nat.eqb (rebase (offs (farr f0))) (rebase (offs (farr f)))) t
   end.
 
 (* a present row has a valid (non-null) list in every field *)
